@@ -21,6 +21,7 @@ func TestVfC17UpstreamAuth(t *testing.T) {
 	sysCA := NewCA("vf c17 system root") // the system root store of the proxy process (SSL_CERT_FILE) holds exactly this one
 	rapid.Check(t, func(t *rapid.T) {
 		block := NextIPBlock()
+		defer FreeIPBlock(block)
 		pip, uip := block+"1", block+"2"
 		kind := rapid.SampledFrom([]string{"tls", "tls+pipeline", "https", "h3", "quic"}).Draw(t, "kind")
 		byName := rapid.Bool().Draw(t, "hostIsName")
@@ -134,6 +135,7 @@ func TestVfC17ClientCert(t *testing.T) {
 	server := ca.Issue(LeafOpts{DNSNames: []string{"proxy.c17.test"}})
 	rapid.Check(t, func(t *rapid.T) {
 		block := NextIPBlock()
+		defer FreeIPBlock(block)
 		pip := block + "1"
 		kind := rapid.SampledFrom([]string{"tls", "https", "quic"}).Draw(t, "listener")
 		verify := rapid.IntRange(0, 3).Draw(t, "verify") > 0
